@@ -43,7 +43,7 @@ def gen_scenario(r):
     sc = {'kind': kind, 'nonce': nonce}
     if kind == 'connect':
         head = ('CONNECT %s:443 HTTP/1.1\r\nHost: %s:443\r\n%s\r\n' % (host, host, 'Proxy-Connection: keep-alive\r\n' if r.chance(0.5) else '')).encode()
-        status = r.pick([200, 200, 200, 201, 403, 403, 502, 407, 404])
+        status = r.pick([200, 200, 200, 201, 403, 403, 502, 407, 404, 101])
     else:
         head = ('GET /ws-%s HTTP/1.1\r\nHost: %s\r\nConnection: Upgrade\r\nUpgrade: websocket\r\n\r\n' % (nonce, host)).encode()
         status = 101
@@ -81,7 +81,7 @@ def gen_scenario(r):
     sc.update(head=head, resp=resp, status_line=status_line, client_payload=client_payload, server_payload=server_payload, nfollow=len(follow_reqs))
     # layout of the history
     layout = r.pick(['separate', 'payload_with_head', 'payload_before_response', 'response_cut'])
-    if kind == 'upgrade':
+    if kind == 'upgrade' or status == 101:
         layout = 'separate'     # a client switches protocols only after it has seen the 101
     hs = r.pick(['whole', 'tail', 'bytes', 'random'])
     rs = r.pick(['whole', 'headline', 'tail', 'bytes', 'random'])
